@@ -132,7 +132,7 @@ class State:
             from .vtypes import NONE
             return NONE
         if base == "Fun":
-            return Val("Fun", ("opaque", self.fresh_name(hint)))
+            return Val("Fun", self.fresh(RefS, hint), extra=("name", hint))
         if isinstance(base, tuple) and base[0] in ("MSet", "MMap"):
             if base[0] == "MSet":
                 return Val(base, self.fresh(z3.ArraySort(sort_of(base[1]), z3.BoolSort()), hint))
